@@ -112,8 +112,11 @@ func genC09(c *Ctx) {
 			c.Emit(fmt.Sprintf("h.new 0 %d %d %d %d", size, cfg.Pieces, cfg.Capstones, b2i(cfg.BlackWinsTies)))
 		} else {
 			var p *tak.Position
-			if c.R.Chance(1, 3) {
+			if x := c.R.Intn(9); x < 3 {
 				p = roadBoard(c.R, size)
+			} else if x < 6 {
+				p = groupsBoard(c.R, size)
+				c.Count("start.groupsboard")
 			} else {
 				p = constructed(c.R, size)
 			}
